@@ -38,6 +38,10 @@ def gen_value(rng, depth=0):
         if k < 0.9:
             n = rng.choice((0, 1, 1, 2, 5, 20))
             bs = bytes((rng.choice(SPECIAL) if rng.random() < 0.5 else rng.randint(0x20, 0x7e)) for _ in range(n))
+            if rng.random() < 0.15:
+                # bytes above 0x7f: Latin-1 text, well-formed UTF-8, and the beginnings of UTF-8 sequences that never end
+                hi = rng.choice((b'\xe9', b'caf\xe9', b'\xc3\xa9', b'\xe4\xb8\xad', b'\xf0\x9f\x98\x80', b'\xc3', b'\xe4\xb8', b'\xff\xfe', b'\x80', b'a\xe9"b', b'\xe9\\'))
+                pos = rng.randint(0, len(bs)); bs = bs[:pos] + hi + bs[pos:]
             return 'S("%s")' % bs.hex()
         if k < 0.95: return 'this_object()'
         return '({ })' if rng.random() < 0.5 else '([ ])'
